@@ -3,7 +3,7 @@
    files.  mod_init is the model of Module.__init__, node_run of load_config + create_modules, startup of the part of the
    poll thread before the start callback. *)
 From Coq Require Import String.
-From Coq Require Import ZArith NArith Bool List.
+From Coq Require Import ZArith NArith Bool List Permutation.
 Import ListNotations.
 Local Open Scope list_scope.
 Require Import FV.Base.Util FV.Base.F64 FV.Base.PyVal FV.C01.Model FV.C01.Lemmas FV.Gen.C10 FV.C10.Model FV.C10.Lemmas
@@ -14,7 +14,8 @@ Theorem C10_source_facts :
   add_accessible_catches_exactly_key_and_badvalue = true /\ param_setproperty_wraps_badvalue = true /\
   checks_only_without_errors_and_raise = true /\ unknown_names_reported = true /\
   module_props_popped_and_badvalue_collected = true /\ writedict_only_with_write_method = true /\
-  needscfg_and_uninit_marker = true /\ writes_before_first_polls = true /\ write_init_pops_each_entry_once = true /\
+  needscfg_and_uninit_marker = true /\ writes_before_first_polls = true /\
+  write_init_fetches_value_at_time_of_use = true /\
   minmax_check_present = true /\ mandatory_check_present = true /\ numeric_datatypes_check_properties = true /\
   array_check_descends_into_members = true /\ name_map_filled_after_cfg = true /\ all_modules_initialised = true /\
   registers_only_created = true /\
@@ -64,8 +65,9 @@ Theorem C10_later_range_checks_use_instance_limits : forall C c i p d x y,
 Proof. intros C c i p d x y _ _ _ Hwf Hv. eapply validate_sound; [exact Hwf|left; reflexivity|exact Hv]. Qed.
 
 (* start-up: the poll thread first hands writeDict to the write methods, then initialReads, then the first polls; every
-   write method receives its configured (validated) value exactly once - or, when the value does not validate, the module
-   there is no driver method, never (see the refuted statement below); this holds for unexported modules as well *)
+   write method receives its configured (validated) value exactly once - or, when the value does not validate or
+   there is no driver method, never (see the refuted statement below); this holds for unexported modules as well, and
+   also when write methods take over pending values of other parameters (p_takes) *)
 Theorem C10_written_once_before_poll : forall C c i n,
   mod_init C c = Created i -> NoDup (map p_name (active (c_params C))) ->
   (has_thread i = true ->
@@ -77,12 +79,63 @@ Theorem C10_written_once_before_poll : forall C c i n,
   (List.length (writes_for n (startup i)) <= 1)%nat.
 Proof.
   intros C c i n H ND. pose proof (created_write_nodup _ _ _ H ND) as NW. split; [|split].
-  - intros Ht. destruct (startup_shape i Ht) as [ws [rs [A [B [D _]]]]]. exists ws, rs. auto.
+  - intros Ht. destruct (startup_shape i NW Ht) as [ws [rs [A [B [D _]]]]]. exists ws, rs. auto.
   - apply startup_writes. exact NW.
   - rewrite (startup_writes i n NW). destruct (has_thread i); [|simpl; auto].
-    destruct (assoc_str n (i_write i)); [|simpl; auto]. unfold handed.
-    destruct (find_param n (i_params i)); [|simpl; auto]. destruct (p_dt p0); [|simpl; auto].
-    destruct (valid d p); [|simpl; auto]. destruct (p_wfunc p0); simpl; auto.
+    destruct (assoc_str n (i_write i)); [apply handed_le1|simpl; auto].
+Qed.
+
+(* exactly once, for ALL modules, configurations and take-over scripts: the hardware write calls (driver write methods
+   entered) of the start-up phase all come before initialReads and the first polls, and as a multiset they are exactly:
+   one call write_<n>(validated v) per writeDict entry (n, v) - `handed` is that one call, or none for a value that does
+   not validate (open finding) / a parameter without driver method.  It does not matter who makes the call: the loop of
+   writeInitParams or a write method of an earlier parameter that took the pending value over (p_takes, nested to any
+   depth); an entry consumed that way is not written a second time.  Without poll thread there is nothing to write. *)
+Theorem C10_written_exactly_once : forall C c i,
+  mod_init C c = Created i -> NoDup (map p_name (active (c_params C))) ->
+  (has_thread i = true ->
+   exists ws rs, startup i = ws ++ EvInit :: rs /\ forallb is_write ws = true /\ forallb is_read rs = true /\
+     Permutation ws (flat_map (fun nv => map (EvWrite (fst nv)) (handed (i_params i) (fst nv) (snd nv))) (i_write i)) /\
+     (forall n, writes_for n ws =
+                match assoc_str n (i_write i) with Some v => handed (i_params i) n v | None => [] end)) /\
+  (forall n v, (List.length (handed (i_params i) n v) <= 1)%nat) /\
+  (has_thread i = false -> i_write i = [] /\ startup i = []).
+Proof.
+  intros C c i H ND. pose proof (created_write_nodup _ _ _ H ND) as NW. split; [|split].
+  - intros Ht. destruct (startup_shape i NW Ht) as [ws [rs [A [B [D [P R]]]]]]. exists ws, rs.
+    split; [exact A|split; [exact B|split; [exact D|split; [exact P|]]]].
+    intros n. pose proof (startup_writes i n NW) as W. rewrite Ht, A, R in W.
+    change (EvInit :: map EvRead (polled_names i)) with ([EvInit] ++ map EvRead (polled_names i)) in W.
+    rewrite writes_for_app in W. change ([EvInit] ++ map EvRead (polled_names i)) with (EvInit :: map EvRead (polled_names i)) in W.
+    rewrite writes_for_reads, app_nil_r in W. exact W.
+  - intros n v. apply handed_le1.
+  - intros Ht. split; [|apply startup_none; exact Ht]. unfold has_thread in Ht. destruct (i_write i); [reflexivity|].
+    rewrite orb_true_r in Ht. discriminate.
+Qed.
+
+(* ... applied to a configured value: the driver method of a parameter with a configured value receives exactly that
+   value, validated by the datatype of the instance, exactly once before the first poll (nothing when it does not
+   validate: open finding, or when the write wrapper has no driver method behind it) *)
+Theorem C10_configured_value_written_exactly_once : forall C c i p d en v,
+  mod_init C c = Created i -> In p (c_params C) -> p_optional p = false -> p_iscmd p = false -> p_dt p = Some d ->
+  assoc_str (p_name p) c = Some (CDict en) -> NoDup (map fst en) -> In (k_value, v) en ->
+  NoDup (map p_name (active (c_params C))) -> p_has_write p = true ->
+  exists p' d', find_param (p_name p) (i_params i) = Some p' /\ p_dt p' = Some d' /\ (forall x, conv d x = conv d' x) /\
+    has_thread i = true /\
+    writes_for (p_name p) (startup i) = match valid d' v with Ok x => if p_wfunc p then [x] else [] | Err _ => [] end.
+Proof. intros; eapply configured_value_written; eassumption. Qed.
+
+(* writeDict = exactly the values of parameters with a write wrapper: the converse of the last clause of
+   C10_value_applied - every entry is the configured value (or, when the configuration gives none, the class-level
+   value) of a non-optional parameter of the class with a write wrapper, one entry per name *)
+Theorem C10_writedict_only_configured_values : forall C c i,
+  mod_init C c = Created i ->
+  (forall n v, In (n, v) (i_write i) ->
+     exists p, In p (c_params C) /\ p_optional p = false /\ p_iscmd p = false /\ p_name p = n /\ p_has_write p = true /\
+       ((exists en, assoc_str n c = Some (CDict en) /\ In (k_value, v) en) \/ p_value p = Some v)) /\
+  (NoDup (map p_name (active (c_params C))) -> NoDup (map fst (i_write i))).
+Proof.
+  intros C c i H. split; [intros n v Hin; eapply write_entry_source; eassumption|intros ND; exact (created_write_nodup _ _ _ H ND)].
 Qed.
 
 (* ---- erroneous configuration is rejected whole: no instance *)
@@ -105,6 +158,34 @@ Theorem C10_missing_mandatory_description_rejected : forall C c i p,
   In p (c_params C) -> p_optional p = false -> p_iscmd p = false -> p_descr p = None ->
   assoc_str (p_name p) c = None -> mod_init C c <> Created i.
 Proof. intros; eapply missing_description_rejected; eassumption. Qed.
+
+(* per-item completeness of the error list of a rejected module (the ConfigError raised by Module.__init__), for the
+   items the code collects while it applies the configuration: every unknown name, every module property whose value
+   does not validate, every Param entry with a value / default / constant of the wrong type (named by its first failing
+   property: the loop over one entry stops there, `pre` are the properties applied before it) and every missing required
+   value are named together, whatever else is wrong in the same module.
+   NOT per item (the full statement "every erroneous item is named" does not hold for the code, see notes): the
+   consistency checks (mandatory properties, min <= max, missing description) only run when nothing was collected before
+   (`if not self.errors:`), and an unknown or ill-typed parameter property leaves __init__ as ProgrammingError (outcome
+   Crashed: the module is reported by name only). *)
+Theorem C10_error_list_names_every_collected_item : forall C c es,
+  mod_init C c = Rejected es ->
+  (forall k, In k (map fst c) -> mem_str k (known_names C) = false -> exists l, In (ErrUnknown l) es /\ In k l) /\
+  (forall sp v e, In sp (all_mprops C) -> mprop_cfg_value c (mp_name sp) = Some v ->
+     mp_validate (mp_type sp) v = Err e -> is_bad_value e = true -> In (ErrModProp (mp_name sp)) es) /\
+  (forall p d pre k v rest p1 e, In p (c_params C) -> p_optional p = false -> p_iscmd p = false -> p_dt p = Some d ->
+     assoc_str (p_name p) c = Some (CDict (pre ++ (k, v) :: rest)) -> apply_entry_keep p pre = (p1, PGo p1) ->
+     mem_str k checked_value_props = true -> conv d v = Err e -> is_bad_value e = true ->
+     In (ErrBadValue (p_name p) k) es) /\
+  (forall p d, In p (c_params C) -> p_optional p = false -> p_iscmd p = false -> p_dt p = Some d ->
+     p_needscfg p = true -> p_value p = None -> assoc_str (p_name p) c = None -> In (ErrNeedsCfg (p_name p)) es).
+Proof.
+  intros C c es H. split; [|split; [|split]].
+  - intros; eapply unknown_name_listed; eassumption.
+  - intros; eapply bad_module_property_listed; eassumption.
+  - intros; eapply wrong_type_listed; eassumption.
+  - intros; eapply missing_value_listed; eassumption.
+Qed.
 
 (* no parameter of a created module has min > max in its datatype, also not on the element type of an array
    (formerly ..._except_array_member; the exception went away with the repair of ArrayOf.checkProperties) *)
@@ -168,15 +249,41 @@ Example C10_demo :
   end = true.
 Proof. vm_compute. reflexivity. Qed.
 
+(* non-vacuity of the take-over clause: write_p1 takes over the pending value of p3, whose write method takes over the one
+   of p2; all three are configured: each driver method is entered once (p3 and p2 nested inside write_p1, in this order),
+   nothing is written a second time by the loop *)
+Definition C2 : cls :=
+  {| c_params := [mkpt "p1" fl010 true [s_ "p3"; s_ "p2"]; mkpt "p2" fl010 true []; mkpt "p3" fl010 true [s_ "p2"]];
+     c_props := []; c_enablepoll := true |}.
+Definition demo_cfg2 : cfg :=
+  [descr; (s_ "p1", CDict [(k_value, PInt 1)]); (s_ "p2", CDict [(k_value, PInt 2)]); (s_ "p3", CDict [(k_value, PInt 3)])].
+Example C10_demo_takeover :
+  match mod_init C2 demo_cfg2 with
+  | Created i =>
+      list_eqb str_eqb (map fst (i_write i)) [s_ "p1"; s_ "p2"; s_ "p3"]
+      && match startup i with
+         | [EvWrite n1 v1; EvWrite n2 v2; EvWrite n3 v3; EvInit] =>
+             str_eqb n1 (s_ "p1") && str_eqb n2 (s_ "p3") && str_eqb n3 (s_ "p2")
+             && pv_same v1 (PFloat (of_Z 1)) && pv_same v2 (PFloat (of_Z 3)) && pv_same v3 (PFloat (of_Z 2))
+         | _ => false
+         end
+  | _ => false
+  end = true.
+Proof. vm_compute. reflexivity. Qed.
+
 Print Assumptions C10_source_facts.
 Print Assumptions C10_value_applied.
 Print Assumptions C10_value_applied_idempotent.
 Print Assumptions C10_later_range_checks_use_instance_limits.
 Print Assumptions C10_written_once_before_poll.
+Print Assumptions C10_written_exactly_once.
+Print Assumptions C10_configured_value_written_exactly_once.
+Print Assumptions C10_writedict_only_configured_values.
 Print Assumptions C10_unknown_name_rejected.
 Print Assumptions C10_wrong_type_value_rejected.
 Print Assumptions C10_missing_required_value_rejected.
 Print Assumptions C10_missing_mandatory_description_rejected.
+Print Assumptions C10_error_list_names_every_collected_item.
 Print Assumptions C10_inverted_limits_rejected.
 Print Assumptions C10_export_names_applied.
 Print Assumptions C10_node_rejects_whole.
